@@ -21,6 +21,8 @@ def check(ix, rep):
     rep.floor('binary alternatives with precedence facts', npz, 22)
     nl = P.check_ltl_front_end(ix, rep, grammars)
     rep.floor('LTL/STL front-end obligations', nl, 100)
+    nb = P.check_builder_exhaustive(ix, rep, grammars)
+    rep.floor('grammar alternatives with a builder obligation', nb, 70)
     ctx = GP.context_classes(ix.module('rtamt.antlr.parser.stl.StlParser'))
     P.check_optional(ix, rep, stl, rules, ctx)
     P.check_optional(ix, rep, ltl, G.effective_rules(grammars, 'LtlParser'), ctx)
